@@ -224,4 +224,31 @@ theorem blocksOf_flatten {d data : List Nat} (hd : d ≠ []) (offs : List Nat) (
       show o + (o' - o) = o' by omega]
     exact take_sub_append_drop data (seekPos_mono (by omega) (by omega))
 
+theorem blocksOf_flatten_le {d data : List Nat} (hd : d ≠ []) (offs : List Nat) (o : Nat)
+    (hs : (o :: offs).Pairwise (· ≤ ·)) (hlt : ∀ x ∈ o :: offs, x ≤ data.length) :
+    (blocksOf data d (o :: offs)).flatten = data.drop (seekPos d data o) := by
+  induction offs generalizing o with
+  | nil =>
+    have ho : o ≤ data.length := hlt o (by simp)
+    simp only [blocksOf, lengthsOf, List.zip_cons_cons, List.zip_nil_right, List.map_cons, List.map_nil,
+      List.flatten_cons, List.flatten_nil, List.append_nil]
+    rw [readBlockFromFile_some hd (by omega), show o + (data.length - o) = data.length by omega,
+      seekPos_len hd]
+    apply List.take_of_length_le
+    simp only [List.length_drop]; omega
+  | cons o' rest ih =>
+    have hoo' : o ≤ o' := (List.pairwise_cons.mp hs).1 o' (by simp)
+    have ho' : o' ≤ data.length := hlt o' (by simp)
+    have hs' : (o' :: rest).Pairwise (· ≤ ·) := (List.pairwise_cons.mp hs).2
+    have ih' := ih o' hs' (fun x hx => hlt x (List.mem_cons_of_mem _ hx))
+    rw [blocksOf_cons_cons, List.flatten_cons, ih', readBlockFromFile_some hd (by omega),
+      show o + (o' - o) = o' by omega]
+    exact take_sub_append_drop data (seekPos_mono (by omega) (by omega))
+
+theorem lengthsOf_head_shift (size : Nat) (os : List Nat) :
+    shiftHead (0 :: os, lengthsOf size (0 :: os)) = (1 :: os, lengthsOf size (1 :: os)) := by
+  cases os with
+  | nil => simp [shiftHead, lengthsOf]
+  | cons o' r => simp [shiftHead, lengthsOf]
+
 end Dask.TextBlocks
